@@ -62,3 +62,51 @@ def check_query_case(ctx, ast, doc, text, cls, *, extra=None, env=None, nontrivi
     if len(ctx.samples) < 2 or ctx.rng.random() < sample_p:
         ctx.sample({"text": text, "doc": canon(doc)[:200], "nodelist": impl.brief(model)[:4], "class": cls})
     return True
+
+
+def fold_model(comp, doc, extra=None):
+    """Reference result of a compound query [q0, [op, q1], ...]: union = left then right,
+    intersection = left restricted to values the right also produces, left to right."""
+    from .jsonval import strict_eq
+
+    cur = list(ref.eval_query(comp[0], doc, extra=extra))
+    for op, q in comp[1:]:
+        res = ref.eval_query(q, doc, extra=extra)
+        if op == "|":
+            cur = cur + list(res)
+        else:
+            cur = [x for x in cur if any(strict_eq(x[1], y[1]) for y in res)]
+    return cur
+
+
+def check_compound_case(ctx, comp, doc, text, cls, *, extra=None, env=None):
+    """A compound query (possibly mixing $ and ^ operands) against the fold of the
+    reference results of its operands, through finditer and findall."""
+    import jsonpath
+
+    env = env or jsonpath.DEFAULT_ENV
+    ctx.evaluation()
+    try:
+        model = fold_model(comp, doc, extra)
+    except ref_regex.Unsupported:
+        ctx.count("regex_outside_common_dialect_skipped")
+        return True
+    case = {"class": cls, "comp": comp, "doc": doc, "text": text}
+    if extra is not None:
+        case["extra"] = extra
+    ctx.case(h(text, canon(doc), canon(extra) if extra is not None else ""), nontrivial=bool(model))
+    kw = {"filter_context": extra} if extra is not None else {}
+    it = impl.call(lambda: impl.match_records(env.finditer(text, doc, **kw)))
+    if not it.ok:
+        ctx.violation("compound-evaluation-raised:%s:%s" % (type(it.exc).__name__, cls), case, {"error": it.desc(), "text": text})
+        return False
+    diff = impl.nodes_equal(it.value, model)
+    if diff:
+        ctx.violation("compound-nodelist-differs-from-fold-of-operands:%s" % cls, case, {"text": text, "diff": diff, "impl": impl.brief_impl(it.value), "model": impl.brief(model)})
+        return False
+    fa = impl.call(env.findall, text, doc, **kw)
+    if not fa.ok or impl.values_equal(fa.value, model):
+        ctx.violation("compound-findall-differs-from-fold-of-operands:%s" % cls, case, {"text": text, "diff": fa.desc() if not fa.ok else impl.values_equal(fa.value, model)})
+        return False
+    ctx.count("compound_cases_compared")
+    return True
